@@ -86,12 +86,17 @@ Probes(g) ==
     IN  grid \o SeqOf(Vertices(g) \ Range(grid))          \* the vertices themselves are always probed
 
 UnitsOf(gi, i, j) == IF AllUnits THEN 1..3 ELSE {((gi + i + 2 * j) % 3) + 1}        \* u: which time unit the binder uses
-Descriptors == UNION {UNION {{[gi |-> gi, i |-> i, j |-> j, neg |-> 0, u |-> u] : u \in UnitsOf(gi, i, j)} :
+\* which numeric types the buffers of a combination are passed in (indices into Buffer!BufTypes): the closed-form kinds
+\* three types per combination (one of them always unsigned), the shapely kinds one; all nine types occur for every geometry
+TypesOf(gi, i, j) == IF Geoms[gi].type \in ClosedKinds THEN LET q == ((gi + i + j) % 3) + 1 IN {q, q + 3, q + 6}
+                     ELSE {((2 * gi + 3 * i + j) % 9) + 1}
+Descriptors == UNION {UNION {{[gi |-> gi, i |-> i, j |-> j, neg |-> 0, u |-> u, ty |-> q] : u \in UnitsOf(gi, i, j), q \in TypesOf(gi, i, j)} :
                                  i \in 1..NT(Geoms[gi]), j \in 1..5} : gi \in 1..Len(Geoms)}
-          \cup {[gi |-> gi, i |-> 1, j |-> 1, neg |-> n, u |-> (n % 3) + 1] : gi \in 1..Len(Geoms), n \in 1..3}
+          \cup {[gi |-> gi, i |-> 1, j |-> 1, neg |-> n, u |-> (n % 3) + 1, ty |-> <<1, 2, 5>>[((gi + n) % 3) + 1]] : gi \in 1..Len(Geoms), n \in 1..3}
 B1(d) == IF d.neg = 0 THEN <<BT[d.i], BF[d.j]>> ELSE NegPairs[d.neg][1]
 B2(d) == IF d.neg = 0 THEN <<BT[UpT(Geoms[d.gi], d.i)], BF[Up(d.j)]>> ELSE NegPairs[d.neg][2]
-Concrete(d) == [g |-> Geoms[d.gi], b1 |-> B1(d), b2 |-> B2(d), probes |-> Probes(Geoms[d.gi]), u |-> d.u]
+Concrete(d) == [g |-> Geoms[d.gi], b1 |-> B1(d), b2 |-> B2(d), probes |-> Probes(Geoms[d.gi]), u |-> d.u,
+                t1 |-> ArgTypes(BufTypes[d.ty], B1(d), d.u), t2 |-> ArgTypes(BufTypes[d.ty], B2(d), d.u)]
 
 Init == /\ c \in {d \in Descriptors : (d.gi * 7 + d.i * 3 + d.j + d.neg) % GeomStride = 0}
         /\ ph = "in" /\ res = <<>>
@@ -108,7 +113,8 @@ Export == ph = "out" => PrintT(<<"CASE", ToJson(Concrete(c))>>)
 
 (* ---- laws of the specification, for every geometry of the catalogue and ALL ordered buffer pairs ---- *)
 \* (they depend on the geometry only: evaluated once per geometry, in the state after Compute)
-LawAt == ph = "out" /\ c.i = 1 /\ c.j = 1 /\ c.neg = 0 /\ c.u = CHOOSE u \in UnitsOf(c.gi, 1, 1) : TRUE
+LawAt == ph = "out" /\ c.i = 1 /\ c.j = 1 /\ c.neg = 0 /\ c.u = (CHOOSE u \in UnitsOf(c.gi, 1, 1) : TRUE)
+         /\ c.ty = (CHOOSE q \in TypesOf(c.gi, 1, 1) : TRUE)
 GG == Geoms[c.gi]
 PP == Range(Probes(GG))
 AllB == {<<BT[i], BF[j]>> : i \in 1..NT(GG), j \in 1..5}
@@ -151,5 +157,11 @@ LawMonoComparable == (LawAt /\ c.gi = 1) =>
                                   /\ ~MonoComparable(<<4, 8>>, <<4, 16>>) /\ ~MonoComparable(<<1000, 0>>, <<1004, 0>>)
                                   /\ MonoComparable(<<206, 0>>, <<207, 0>>) /\ ~MonoComparable(<<2, 8>>, <<1, 16>>)
                                   /\ MonoComparable(<<200, 0>>, <<200000000, 0>>) /\ ~MonoComparable(<<412, 0>>, <<413, 0>>) /\ MonoComparable(<<412, 0>>, <<414, 0>>)
+\* the type rules: what fits keeps its value; unsigned types never carry a negative buffer; every type is used
+LawTypes == (LawAt /\ c.gi = 1) =>
+    /\ Fits("np.uint16", "f", 32, 1) /\ ~Fits("np.uint8", "f", 8, 1) /\ Fits("np.uint8", "f", 3, 1) /\ ~Fits("np.uint64", "t", -1, 1)
+    /\ Fits("int", "t", 4, 2) /\ ~Fits("int", "t", 2, 2) /\ Fits("np.float32", "t", 200000000, 3) /\ ~Fits("np.float32", "t", 100000003, 1)
+    /\ Fits("np.uint16", "t", 200, 2) /\ ~Fits("np.uint16", "t", 200000000, 1) /\ Fits("np.uint32", "t", 200000000, 1)
+    /\ \A gi \in 1..Len(Geoms) : UNION {TypesOf(gi, i, j) : i \in 1..5, j \in 1..5} = 1..9
 LawOutcome == ph = "out" => Len(res) = 2
 =============================================================================
